@@ -728,3 +728,17 @@ package cl
 //@   loop rangeindex+1<len(keys): invariant compared-so-far: $ncall_ObjectEqual >= 0 && (tc == nil ==> $ncall_ObjectEqual >= rangeindex + 1)
 //@   loop rangeindex+1<len(list1): invariant counted-from-zero: $ncall_ObjectEqual >= 0
 //@   loop i<len(list2): invariant counted-from-zero: $ncall_ObjectEqual >= 0
+
+// C16: typep and type-of rest on the same list - the object's hierarchy: type-of
+// answers its first entry, typep answers t for every entry (compared without
+// regard to case), so an object is typep of its own type-of and of every
+// supertype the hierarchy names; nil and the empty list are of type null for both.
+//@ pure-method Object.Hierarchy
+//@ func cl.(*Typep).Call
+//@   property C16
+//@   ensures every-hierarchy-entry-is-a-type: (args[0] != nil && !is(args[0], slip.List) && is(args[1], slip.Symbol) && (exists j :: 0 <= j && j < len(Hierarchy(args[0])) && equalfold(Hierarchy(args[0])[j], as(args[1], slip.Symbol)))) ==> result0 == box(slip.True, slip.boolean)
+//@   ensures nothing-else-is: (args[0] != nil && !is(args[0], slip.List) && result0 != nil) ==> (exists j :: 0 <= j && j < len(Hierarchy(args[0])) && equalfold(Hierarchy(args[0])[j], as(args[1], slip.Symbol)))
+//@   loop rangeindex#2: invariant none-so-far: forall j :: (0 <= j && j <= rangeindex) ==> !equalfold(Hierarchy(args[0])[j], as(args[1], slip.Symbol))
+//@ func cl.(*TypeOf).Call
+//@   property C16
+//@   ensures first-hierarchy-entry: (args[0] != nil && !is(args[0], slip.List)) ==> result0 == box(Hierarchy(args[0])[0], slip.Symbol)
